@@ -237,6 +237,11 @@ func (historyEngine) Gen(r *Rand, tier string) any {
 		for id := 501; id <= 500+h.fpN; id++ {
 			avail = append(avail, id)
 		}
+		if src := Src(op.Forms); strings.Contains(src, "sim:hf1") {
+			avail = append(avail, 91)
+		} else if strings.Contains(src, "sim:hf2") {
+			avail = append(avail, 92)
+		}
 		histFaults := func(r *Rand, n int) []FaultSpec { return histFaultsFrom(r, n, avail) }
 		// a structural overflow: recursion of known depth whose levels push a
 		// mix of frame kinds, under a physical limit that lands the refused
